@@ -26,6 +26,7 @@ SCRATCH = os.environ.get("VERIF_SCRATCH", "/var/tmp/verif-scratch")
 
 ENGINES = [
     ("cosim", {}),
+    ("histsim", {"focus": "C04"}),
     ("histsim", {"focus": "C14"}),
     ("histsim", {"focus": "C15"}),
     ("histsim", {"focus": "C18"}),
